@@ -54,6 +54,30 @@ CHECKS = {
    note="Crash points are libc-call boundaries; four server schedules per point, not all interleavings; real-time latencies with slack 1500 ms, 'immediately' = 500 ms, confirm-by-rerun; a dead server's directory and the statistics counters are observed but not judged; Linux abstract sockets, max_msg_size 8192; TLC, ASan/UBSan and the harness projection are trusted.",
    technique="TLA+ model checking (TLC, safety and liveness) + spec-driven fault enumeration on the C code (call-counting interposer, forked peers) + TLC trace validation",
    design_ref="DESIGN.md section 4, C03"),
+ "C04": dict(
+   text="spec/IpcLife.tla states the callback order and lifetime rules as guards over connection phases, the library's and the application's "
+        "references and the stack of calls in progress (callbacks nest inside API calls and vice versa): the word accept.created?.msg*.closed*.destroyed; "
+        "closed only after created returned and again only after a non-zero return; destroyed only at zero references and outside the connection's "
+        "callbacks; no unreferenced connection survives a return to the main loop. IpcLifeMC.tla transcribes the lifecycle code of lib/ipcs.c and "
+        "ipc_setup.c and is checked exhaustively by TLC with the property spec as a monitor, plus no-use-after-free and no-use-of-torn-transport, for "
+        "every application with bounded callback bodies and main-loop moves (2 connections). Binding: a real qb_ipcs service on both transports in one "
+        "thread (the harness owns the poll-handler table; in-process and forked dying clients; ASan), driven by 36 directed scenarios, seeded random "
+        "programs and random walks of the model; every callback, API call and return is validated by TLC against IpcLife (IpcLifeTrace.tla).",
+   note="Model bounded to 2 connections, 1-2 calls per callback, 4-6 main-loop moves; when the library notices a dead peer and what sends return are left open; freed-memory use is observed by ASan (use of a closed descriptor number only when it faults).",
+   technique="TLA+ model checking (TLC) of a transcribed closed model with the property spec as monitor + model-generated and seeded programs on the stepped real server + TLC trace validation + ASan monitor",
+   design_ref="DESIGN.md section 4, C04"),
+ "C06": dict(
+   text="spec/IpcWire.tla specifies a qb_ipcs server as its peers see it: peers write arbitrary handshake bytes in arbitrary pieces, admitted clients "
+        "emit raw requests; the guards are the property (admission only after a complete record with id AUTHENTICATE; nothing to msg_process for "
+        "strangers; descriptors, heap bytes and shm files back to baseline once peers are gone; a well-behaved client always served; reported length "
+        "<= min(received, negotiated max) and inside the connection's buffer or ring; the server never dies). TLC checks the protocol machine "
+        "exhaustively for small universes and the request-class product against class-level transcriptions of the receive path. TLC enumerates the "
+        "case product (every prefix length x split point x ending, complete records with up to 2/3 boundary deviations, seeded garbage, transport x "
+        "maximum x actual x header-length for raw requests); each case runs on the real server in a forked ASan child with an inaccessible tail behind "
+        "the ring mapping, and TLC validates every recorded event (IpcWireTrace.tla).",
+   note="Bounded class product with boundary values; max_msg_size up to 64 MiB; single-threaded stepped server; one raw request in flight; memory errors observed by ASan and the mmap guard, hangs by a 60 s alarm; UBSan alignment check off for ipcs.c in this harness.",
+   technique="TLA+ model checking (TLC) + TLC-generated class product of hostile inputs executed on the C code + TLC trace validation + sanitizer / guard-page monitor",
+   design_ref="DESIGN.md section 4, C06"),
  "C05": dict(
    text="spec/IpcAdmit.tla states admission as invariants over the accept arguments, decisions, client results, messages and everything that "
         "exists under the server's /dev/shm prefix (owner, group, mode of every file and directory), evaluated in every state. TLC checks a "
